@@ -15,7 +15,7 @@ import (
 )
 
 var (
-	branchRegexp = regexp.MustCompile("refs/heads/.+")
+	branchRegexp = regexp.MustCompile("^refs/heads/[^/]+$")
 )
 
 // updateRefCmd represents the updateRef command
